@@ -2,7 +2,9 @@
 import random
 from props.common import table_obligations, bounded
 
-LEVEL_TEXT = ("Table obligations, complete for the artefact they inspect: G1 shape of the operator productions, G2 the declared precedence "
+LEVEL_TEXT = ("[callees evaluate_arithmetic / evaluate_logic / value_and_type are verified under their own contracts in this check; the lexer "
+              "handed to PLY is a per-call clone (table); exact equality is demanded where no step of a tree rounds.]  "
+              "Table obligations, complete for the artefact they inspect: G1 shape of the operator productions, G2 the declared precedence "
               "satisfies the relation of the statement, G3 EVERY (complete operator item, operator lookahead) entry of the LALR table of a "
               "parser instance built the way the runtime builds it is reduce/shift as the statement demands (hence every depth).  Deductive: "
               "the actions for binary operators, unary minus, parentheses and the start rule return exactly the callee's contracted value of "
